@@ -117,7 +117,7 @@ def compare(ops, srcs, prog, beta, text, exp, obs, driver, F, run_id):
         e = exp["res"][ti - 1]
         g = got.get(ti, [])
         # the spec logs "-" for evaluate-only statements
-        g = ["-" if j < len(test) and test[j]["op"] in ("none", "chg") and x == "T" else x for j, x in enumerate(g)]
+        g = ["-" if j < len(test) and test[j]["op"] in ("none", "chg", "dget") and x == "T" else x for j, x in enumerate(g)]
         g = ["UE" if x == "UsageError" else "EX" if x == "ValueError" else x for x in g]
         if g != e:
             te = any(x == "TE" for x in e) or any(x == "TE" for x in g)
